@@ -41,7 +41,48 @@ fn bound(g: &mut Gen) -> Ex {
 }
 
 /// a finite-stream constructor expression
+/// lazy zip of two or three streams, at least one of them finite (the zip ends with its shortest
+/// member), optionally with a combining function
+fn zip_ctor(g: &mut Gen) -> Ex {
+    let n = 2 + g.rng.below(2);
+    let fin_at = g.rng.below(n);
+    let mut args: Vec<Ex> = Vec::new();
+    for i in 0..n {
+        if i == fin_at || g.rng.chance(2, 3) {
+            args.push(simple_finite(g));
+        } else {
+            args.push(infinite_ctor(g));
+        }
+    }
+    if g.rng.chance(1, 3) {
+        let f = if n == 2 {
+            Ex::Lambda(vec![lv("p"), lv("q")], Box::new(Ex::List(vec![var("q"), var("p")])))
+        } else {
+            Ex::Lambda(vec![Lv::Splat(Box::new(lv("ps")))], Box::new(call("len", vec![var("ps")])))
+        };
+        let at = g.rng.below(args.len() + 1);
+        args.insert(at, f);
+    }
+    call("lazy_zip", args)
+}
+
+fn simple_finite(g: &mut Gen) -> Ex {
+    match g.rng.below(3) {
+        0 => Ex::Call(Box::new(var("to")), vec![int(g.rng.range(-2, 2)), int(g.rng.range(-1, 5))]),
+        1 => call("stream", vec![small_list(g, 4)]),
+        _ => {
+            let a = int(g.rng.range(-4, 4));
+            let b = int(g.rng.range(-4, 4));
+            let st = if g.rng.chance(1, 2) { 2 } else { -1 };
+            Ex::Call(Box::new(var("til")), vec![a, b, int(st)])
+        }
+    }
+}
+
 fn finite_ctor(g: &mut Gen) -> Ex {
+    if g.rng.chance(1, 10) {
+        return zip_ctor(g);
+    }
     match g.rng.below(12) {
         0 | 1 => {
             // ranges with both step signs, near and beyond 2^63
@@ -135,6 +176,7 @@ pub fn generate(seed: u64, fault_free: bool) -> StreamOut {
     let cfg = RunCfg {
         hash_seed: pre.next(),
         fuel: 100_000,
+        seq_kind_tolerant: true,
         ..RunCfg::default()
     };
     let mut g = Gen::new(seed, cfg);
